@@ -11,6 +11,7 @@ Oracle: numpy on the values under random rational assignments; mathematical defi
 repeated / constant arguments); introspection = support of the value function; are_equivalent total, sound, complete on affine.
 """
 import math
+import random
 from fractions import Fraction as F
 
 import numpy as np
@@ -583,13 +584,16 @@ def run(ctx):
     rng = ctx.rng
     ctx.lean = common.lean_check('C08')
     quick = ctx.quick()
+    common.run_regressions(ctx, 'C08', recheck)
     NP = 120 if quick else 1200
     nsteps = 6 if quick else 8
     all_steps, viols = [], []
     for p in range(NP):
-        steps, v, vs, id2k = run_program(ctx, rng, '%d_%d' % (ctx.seed, p), rng.randint(2, nsteps))
+        # every program runs from its own sub-seed, so that a stored violation can be executed again (recheck)
+        pseed, ns = rng.randrange(1 << 30), rng.randint(2, nsteps)
+        steps, v, vs, id2k = run_program(ctx, random.Random(pseed), '%d_%d' % (ctx.seed, p), ns)
         all_steps += steps
-        viols += v
+        viols += [(w, dict(rep or {}, pseed=pseed, nsteps=ns)) for w, rep in v]
         ctx.case({'stream': 'program', 'ops': [s['op'] for s in steps]}, nontrivial=len(steps) >= 2)
     mouts = run_driver([{'op': 'wiring.apply', 'wire': s['wire'], 'ins': s['ins']} for s in all_steps])
     for s, mo in zip(all_steps, mouts):
@@ -600,7 +604,8 @@ def run(ctx):
             ctx.disagreement('step', {'op': s['op'], 'in_shapes': s['in_shapes'], 'ins': s['ins'], 'wire': s['wire']}, s['out'], mo['out'])
         else:
             ctx.traces_validated += 1
-    viols += nonlinear_stream(ctx, rng, 60 if quick else 600)
+    nlseed, nlcount = rng.randrange(1 << 30), 60 if quick else 600
+    viols += [(w, dict(rep or {}, nlseed=nlseed, nlcount=nlcount)) for w, rep in nonlinear_stream(ctx, random.Random(nlseed), nlcount)]
     seen = set()
     for what, rep in viols:
         key = what[:70]
@@ -619,6 +624,18 @@ def run(ctx):
              'affine operator library; nonlinear operators with repeated / constant arguments; are_equivalent pairs; '
              'non-trivial = program with >= 2 steps; distinct = distinct operator sequence' % nsteps,
         trusted=TRUSTED, assumptions=ASSUME)
+
+
+def recheck(r):
+    """run the stored program (or nonlinear / equivalence stream) again from its sub-seed; the violation it (still) shows"""
+    ctx = common.RecCtx()
+    if 'pseed' in r:
+        steps, v, vs, id2k = run_program(ctx, random.Random(r['pseed']), 'replay', r['nsteps'])
+        return ('expressions: ' + v[0][0]) if v else None
+    if 'nlseed' in r:
+        v = nonlinear_stream(ctx, random.Random(r['nlseed']), r['nlcount'])
+        return ('expressions: ' + v[0][0]) if v else None
+    return None
 
 
 def replay(obj):
